@@ -4,6 +4,7 @@ import SpsdkVerif.Model.Misc
 import SpsdkVerif.Generated.PyFuns2
 import SpsdkVerif.Generated.EnumTables
 import SpsdkVerif.Model.Misc2
+import SpsdkVerif.Model.Misc3
 open SpsdkVerif Driver
 open SpsdkVerif.Misc
 
@@ -16,10 +17,63 @@ def parseOptInt (s : String) : Option (Option Int) := if s == "none" then some n
 
 def enumByName (n : String) : Option (List EnumRow) :=
   if n == "sb2cmd" then some Generated.EnumTables.enumSb2CmdTag
-  else if n == "ahabmem" then some Generated.EnumTables.enumAhabTargetMemory else none
+  else if n == "ahabmem" then some Generated.EnumTables.enumAhabTargetMemory
+  else if n == "flagssrk" then some Generated.EnumTables.enumFlagsSrkSet else none
 
 def rowStr (m : EnumRow) : String :=
   s!"{m.1}:{hexOrDash (bytesOfChars m.2.1)}:" ++ (match m.2.2 with | some d => hexOrDash (bytesOfChars d) | none => "none")
+
+/-- phase 3 -/
+def charsHex (l : List Char) : String := hexOrDash (bytesOfChars l)
+
+def softByName (n : String) : Option (List EnumRow) :=
+  enumByName n
+
+def step3 : List String → String
+  | ["reverse_bits_i", x, n] => match parseInt x, parseInt n with
+    | some x, some n => resLine toString (reverseBitsI x n) | _, _ => "bad-op"
+  | ["format_value", v, sz, d, p] => match parseInt v, parseInt sz, parseHex d, parseBool p with
+    | some v, some sz, some d, some p => resLine charsHex (formatValue v sz (asciiOf d) p) | _, _, _, _ => "bad-op"
+  | ["v2b_any", kind, payload, a, c, le] =>
+    let src : Option ValSrc :=
+      if kind == "bytes" then (parseHex payload).map .bytes
+      else if kind == "int" then (parseInt payload).map .int
+      else if kind == "str" then (parseHex payload).map (fun b => .str (asciiOf b))
+      else none
+    (match src, parseBool a, parseOptInt c, parseBool le with
+     | some src, some a, some c, some le => resLine toHex (valueToBytesAny src a c le)
+     | _, _, _, _ => "bad-op")
+  | ["extend_block_i", h, l, p] => match parseHex h, parseInt l, parseInt p with
+    | some b, some l, some p => resLine toHex (extendBlockI b l p) | _, _, _ => "bad-op"
+  | ["find_first", h, m, r] => match parseHex h, parseNat m, parseNat r with
+    | some b, some m, some r => (match findFirst b (fun x => x.toNat % m == r) with
+      | some x => s!"ok:{x.toNat}" | none => "ok:none")
+    | _, _, _ => "bad-op"
+  | ["soft", name, cls, "from_tag", t] => match softByName name, parseHex cls, parseInt t with
+    | some E, some c, some t => "ok:" ++ rowStr (softFromTag E (asciiOf c) t) | _, _, _ => "bad-op"
+  | ["soft", name, cls, "get_label", t] => match softByName name, parseHex cls, parseInt t with
+    | some E, some c, some t => "ok:" ++ charsHex (softGetLabel E (asciiOf c) t) | _, _, _ => "bad-op"
+  | ["soft", name, cls, "get_description", t, d] => match softByName name, parseHex cls, parseInt t with
+    | some E, some c, some t =>
+      let dflt : Option (List Char) := if d == "none" then none else (parseHex d).map asciiOf
+      "ok:" ++ (match softGetDescription E (asciiOf c) t dflt with | some l => charsHex l | none => "none")
+    | _, _, _ => "bad-op"
+  | ["soft", name, "contains_tag", t] => match softByName name, parseInt t with
+    | some E, some t => "ok:" ++ boolStr (softContainsTag E t) | _, _ => "bad-op"
+  | ["size_fmt", n, k] => match parseInt n, parseBool k with
+    | some n, some k => "ok:" ++ charsHex (sizeFmt n k) | _, _ => "bad-op"
+  | ["bcd_from_str", h] => match parseHex h with
+    | some b => resLine (fun v => s!"{v.1}.{v.2.1}.{v.2.2}") (bcdFromStr (asciiOf b)) | none => "bad-op"
+  | ["bcd_str", a, b, c] => match parseNat a, parseNat b, parseNat c with
+    | some a, some b, some c => "ok:" ++ charsHex (bcdStr (a, b, c)) | _, _, _ => "bad-op"
+  | ["sb_fill_zeros", h] => match parseHex h with
+    | some b => resLine toHex (sbAlignBlockFillZeros b) | none => "bad-op"
+  | ["load_hex_file", content, src, n] => match parseHex content, parseHex src, parseInt n with
+    | some c, some s, some n =>
+      resLine (fun o => match o with | some b => hexOrDash b | none => "random") (loadHexStringFS (some c) (.str (asciiOf s)) n)
+    | _, _, _ => "bad-op"
+  | ["endianness"] => "ok:" ++ ",".intercalate (Generated.Misc3Tables.endiannessMembers.map (fun m => charsHex m.1 ++ "=" ++ charsHex m.2))
+  | _ => "bad-op"
 
 def step2 : List String → String
   | ["gen_bytes_cnt", f, v, a, c] => match parseNat f, parseInt v, parseBool a, parseOptInt c with
@@ -75,7 +129,7 @@ def step2 : List String → String
     | some E, some t => "ok:" ++ boolStr (containsTag E t) | _, _ => "bad-op"
   | ["enum", name, "contains_label", h] => match enumByName name, parseHex h with
     | some E, some b => "ok:" ++ boolStr (containsLabel E (asciiOf b)) | _, _ => "bad-op"
-  | _ => "bad-op"
+  | l => step3 l
 
 def step : List String → String
   | ["align", n, a] => match parseInt n, parseInt a with
